@@ -6,7 +6,7 @@
 
 using namespace vh;
 
-static long fieldop_ncases(const std::string& tier) { return tier == "thorough" ? 4000 : 200; }
+static long fieldop_ncases(const std::string& tier) { return tier == "thorough" ? 12000 : 200; }
 
 namespace {
 template <class SM> CMat dense_of(const SM& e) {
